@@ -114,6 +114,7 @@ type Ctx struct {
 	samples    []json.RawMessage
 	maxSamples int
 	nviol      int
+	sinceFlush int
 	State      interface{} // per-worker state owned by the property
 }
 
@@ -165,6 +166,26 @@ func (c *Ctx) Journal(desc interface{}) {
 func (c *Ctx) End() {
 	c.emit(&Event{T: "end", ID: c.cur})
 	c.evals++
+	c.sinceFlush++
+	if c.sinceFlush >= 400 {
+		// partial summaries: what was observed so far survives a later death of this worker
+		c.flushSummary()
+	}
+}
+
+func (c *Ctx) flushSummary() {
+	d := make([]string, 0, len(c.distinct))
+	for k := range c.distinct {
+		d = append(d, k)
+	}
+	sort.Strings(d)
+	c.emit(&Event{T: "summary", Evals: c.evals, Counters: c.counters, Distinct: d, Samples: c.samples})
+	c.w.Flush()
+	c.evals, c.sinceFlush = 0, 0
+	c.counters = map[string]int64{}
+	c.distinct = map[string]struct{}{}
+	c.samples = nil
+	c.maxSamples = 2
 }
 
 // Eval counts additional executions inside a case.
@@ -210,11 +231,7 @@ func (c *Ctx) AbortWorker() {
 }
 
 func (c *Ctx) Summary() {
-	d := make([]string, 0, len(c.distinct))
-	for k := range c.distinct {
-		d = append(d, k)
-	}
-	sort.Strings(d)
-	c.emit(&Event{T: "summary", Evals: c.evals, Counters: c.counters, Distinct: d, Samples: c.samples})
+	c.flushSummary()
+	c.emit(&Event{T: "done"})
 	c.w.Flush()
 }
